@@ -755,7 +755,7 @@ func (g *Gen) stmt(depth int) []Stmt {
 		}
 		return g.concatEqMeta(d)
 	case 30:
-		if g.Uses["w5-co-history"] < 2 && g.R.Chance(40) { return g.coHistory(d) } // wave 5, C06: shapes_w5_c06.go
+		if g.Uses["w5-co-history"]+g.Uses["w5-co-chain-status"] < 2 && g.R.Chance(40) { return g.coHistory(d) } // wave 5, C06: shapes_w5_c06.go
 		return g.coTransfer(d)
 	case 31:
 		if g.R.Bool() {
